@@ -186,6 +186,8 @@ impl Monitor {
                 .iter()
                 .copied()
                 .collect();
+            #[cfg(open_coroutine_verif)]
+            crate::common::verif::emit(|| format!(r#""ev":"mon_scan","n":{}"#, nodes.len()));
             if MonitorState::Running != monitor.state.get() && nodes.is_empty() {
                 break;
             }
@@ -198,12 +200,20 @@ impl Monitor {
                 //对于陷入执行系统调用的协程不发送信号(如果发送信号，会打断系统调用，进而降低总体性能)
                 cfg_if::cfg_if! {
                     if #[cfg(unix)] {
+                        #[cfg(open_coroutine_verif)]
+                        crate::common::verif::emit(|| {
+                            format!(r#""ev":"mon_sig_b","pthread":{}"#, node.pthread)
+                        });
                         if pthread_kill(node.pthread, Signal::SIGURG).is_err() {
                             error!(
                                 "Attempt to preempt scheduling for thread:{} failed !",
                                 node.pthread
                             );
                         }
+                        #[cfg(open_coroutine_verif)]
+                        crate::common::verif::emit(|| {
+                            format!(r#""ev":"mon_sig","pthread":{}"#, node.pthread)
+                        });
                     } else if #[cfg(windows)] {
                         // Two-level preemption: the first preempt_thread call
                         // sets a flag via do_preempt; the second call (~1ms
